@@ -848,17 +848,47 @@ impl DbInner {
 					}
 				}
 				if defer {
-					let queue = self.commit_queue.lock();
-					let new_id = if queue.commits.len() > 0 {
-						// Generate a new id
-						None
-					} else {
-						// Nothing else in the queue so can reuse same id
-						Some(commit.id)
-					};
-					self.defer_commit(queue, commit.changeset, commit.bytes, commit.id, new_id)?;
+					// Only the tree removals wait. Everything else in the transaction keeps its
+					// place in the commit order.
+					let mut removals =
+						CommitChangeSet { check_for_deferral: true, ..Default::default() };
+					for (col, set) in commit.changeset.indexed.iter_mut() {
+						let (removed, kept): (Vec<_>, Vec<_>) = std::mem::take(&mut set.node_changes)
+							.into_iter()
+							.partition(|c| matches!(c, NodeChange::DereferenceChildren(..)));
+						set.node_changes = kept;
+						if !removed.is_empty() {
+							removals
+								.indexed
+								.entry(*col)
+								.or_insert_with(|| IndexedChangeSet::new(*col))
+								.node_changes = removed;
+						}
+					}
+					let nothing_else = commit.changeset.btree_indexed.is_empty() &&
+						commit
+							.changeset
+							.indexed
+							.values()
+							.all(|s| s.changes.is_empty() && s.node_changes.is_empty());
+					let mut queue = self.commit_queue.lock();
+					if nothing_else {
+						let new_id = if queue.commits.len() > 0 {
+							// Generate a new id
+							None
+						} else {
+							// Nothing else in the queue so can reuse same id
+							Some(commit.id)
+						};
+						self.defer_commit(queue, removals, commit.bytes, commit.id, new_id)?;
 
-					return Ok(true)
+						return Ok(true)
+					}
+					// The removals hold no overlay entries: they go to the back under a new id.
+					queue.record_id += 1;
+					let id = queue.record_id;
+					queue.commits.push_back(Commit { id, changeset: removals, bytes: 0 });
+					commit.changeset.check_for_deferral = false;
 				} else {
 					for (col, key_values) in commit.changeset.indexed.iter() {
 						for change in &key_values.node_changes {
